@@ -615,7 +615,16 @@ func selftest(id string, perEntry int, verbose bool) (agree, total int) {
 		ex.stride = 400 / (perEntry + 1)
 		ex.deadline = time.Now().Add(2 * time.Minute)
 		ex.Run()
-		for i, m := range ex.models {
+		// evenly spaced sample of the completed paths
+		models := ex.models
+		if len(models) > perEntry {
+			var pick []map[string]uint64
+			for k := 0; k < perEntry; k++ {
+				pick = append(pick, models[k*len(models)/perEntry])
+			}
+			models = pick
+		}
+		for i, m := range models {
 			total++
 			// (a) interpreter, concrete
 			cx := newExplorer(cfg, e.Fn)
